@@ -29,6 +29,10 @@ let fmt_ierr e =
 let fmt_fai r =
   String.concat ":" [hex_of_bytes r.f_name; dec_of_n r.f_len; dec_of_n r.f_pos; dec_of_n r.f_lb; dec_of_n r.f_lw]
 
+let err_code_s c = match int_of_nat c with
+  | 0 -> "InvalidInput" | 1 -> "InvalidData" | 2 -> "UnexpectedEof" | 3 -> "OutOfFuel" | _ -> "WriteZero"
+let cres_s f = function COk x -> f x | CErr c -> "Err:" ^ err_code_s c | CPanic -> "Panic"
+
 let hexlen s = if s = "_" then 0 else String.length s / 2
 
 let handle kind a =
@@ -82,6 +86,62 @@ let handle kind a =
       let cap = nat_of_int (int_of_string a.(1)) in
       let ((rs, e), _) = run_index_file cap (mk a.(0) a.(2)) in
       Some (String.concat "," (List.map fmt_fai rs) ^ "|" ^ (match e with None -> "ok" | Some e -> fmt_ierr e))
+  | "fqr" ->
+      let cap = nat_of_int (int_of_string a.(1)) in
+      let ((rs, e), st') = run_fastq cap (mk a.(0) a.(2)) in
+      let fr r = String.concat ":" (List.map hex_of_bytes [r.q_name; r.q_desc; r.q_seq; r.q_qual]) in
+      let fe = function None -> "ok" | Some QInvalidData -> "Err:InvalidData"
+                      | Some QUnexpectedEof -> "Err:UnexpectedEof" | Some QOutOfFuel -> "NoFuel" in
+      Some (String.concat ";" (List.map fr rs) ^ "|" ^ fe e
+            ^ "|" ^ string_of_int (hexlen a.(0) - int_of_nat (b_left st')))
+  | "fqx" ->
+      let cap = nat_of_int (int_of_string a.(1)) in
+      let ((rs, e), st') = run_fastq_index cap (mk a.(0) a.(2)) in
+      let fr r = String.concat ":" [hex_of_bytes r.qf_name; dec_of_n r.qf_len; dec_of_n r.qf_seq_off;
+                                    dec_of_n r.qf_lb; dec_of_n r.qf_lw; dec_of_n r.qf_qual_off] in
+      let fe = function None -> "ok" | Some QInvalidData -> "Err:InvalidData"
+                      | Some QUnexpectedEof -> "Err:UnexpectedEof" | Some QOutOfFuel -> "NoFuel" in
+      Some (String.concat ";" (List.map fr rs) ^ "|" ^ fe e
+            ^ "|" ^ string_of_int (hexlen a.(0) - int_of_nat (b_left st')))
+  | "hdr" ->
+      let prefix = n_of_int (if a.(0) = "sam" then 64 else 35) in
+      let cap = nat_of_int (int_of_string a.(2)) in
+      let ((((hl, r), pos), ls), _) = run_header prefix cap (mk a.(1) a.(3)) in
+      Some (String.concat ";" (List.map hex_of_bytes hl) ^ "|" ^ (match r with UOk -> "Ok" | UNoFuel -> "NoFuel")
+            ^ "|" ^ String.concat ";" (List.map hex_of_bytes ls)
+            ^ "|" ^ string_of_int (int_of_nat pos))
+  | "bgzr" ->
+      let cap = nat_of_int (int_of_string a.(1)) in
+      let ((bl, pos), r) = run_bgzf inflate cap (mk a.(0) a.(2)) in
+      Some (String.concat ";" (List.map (fun (co, d) -> dec_of_n co ^ ":" ^ hex_of_bytes d) bl)
+            ^ "|" ^ dec_of_n pos ^ "|" ^ cres_s (fun _ -> "Ok") r)
+  | "bedr" ->
+      let n = nat_of_int (int_of_string a.(0)) in
+      let cap = nat_of_int (int_of_string a.(2)) in
+      let j = nat_of_int (int_of_string a.(4)) in
+      let es = run_bed_obs n j cap (mk a.(1) a.(3)) in
+      let hexs l = if l = [] then "-" else String.concat "," (List.map hex_of_bytes l) in
+      let view v = String.concat "|"
+        [ cres_s hex_of_bytes v.v_name; cres_s dec_of_n v.v_start;
+          cres_s (function None -> "." | Some e -> dec_of_n e) v.v_end;
+          (match v.v_nm with None -> "~" | Some r -> cres_s (function None -> "-" | Some s -> hex_of_bytes s) r);
+          cres_s hexs v.v_others ] in
+      Some (String.concat ";" (List.map (fun (r, v) ->
+        cres_s (fun k -> string_of_int (int_of_nat k)) r ^ "/" ^ view v) es))
+  | "samr" ->
+      let cap = nat_of_int (int_of_string a.(1)) in
+      let (l, pos) = run_sam_obs cap (mk a.(0) a.(2)) in
+      Some (String.concat "," (List.map (fun ((r, _), _) -> cres_s (fun k -> string_of_int (int_of_nat k)) r) l)
+            ^ "|" ^ string_of_int (int_of_nat pos))
+  | "vcfr" ->
+      let cap = nat_of_int (int_of_string a.(1)) in
+      let (l, pos) = run_vcf_view_obs cap (mk a.(0) a.(2)) in
+      Some (String.concat "," (List.map (fun (r, v) ->
+              match r with
+              | COk k when int_of_nat k > 0 ->
+                  string_of_int (int_of_nat k) ^ "/" ^ String.concat ":" (List.map hex_of_bytes v)
+              | _ -> cres_s (fun k -> string_of_int (int_of_nat k)) r) l)
+            ^ "|" ^ string_of_int (int_of_nat pos))
   | _ -> None
 
 let () = run_driver handle
